@@ -102,17 +102,51 @@ def skeleton(fdef):
         assert isinstance(ret2, ast.Return)
         h["result_written"] = ret2.value
         ret2.value = _hole(12)
+        # the statements before the try block: the whole body is pinned (REVIEW3 C23 ext. 1).
+        #   if verbose and not _is_file_like(target_file): print(...)
+        #   recompiler = Recompiler(...); recompiler.collect_type_table(); recompiler.collect_step_tables()
+        #   if _is_file_like(target_file): recompiler.write_source_to_f(A, B); return R
+        #   f = NativeIO(); recompiler.write_source_to_f(A2, B2); output = f.getvalue()
+        body = [s for s in f.body if not (isinstance(s, ast.Expr) and isinstance(s.value, ast.Constant))]
+        assert len(body) == 9 and body[-1] is tr
+        fl = body[4]
+        assert isinstance(fl, ast.If) and not fl.orelse and len(fl.body) == 2
+        call, ret = fl.body
+        assert isinstance(call, ast.Expr) and isinstance(ret, ast.Return)
+        wf = ast.dump(ast.parse("recompiler.write_source_to_f", mode="eval").body)
+        assert ast.dump(call.value.func) == wf and len(call.value.args) == 2 and not call.value.keywords
+        h["fl_sink"], h["fl_arg"] = call.value.args
+        call.value.args = [_hole(13), _hole(14)]
+        h["fl_result"] = ret.value
+        ret.value = _hole(15)
+        call2 = body[6]
+        assert isinstance(call2, ast.Expr) and ast.dump(call2.value.func) == wf and len(call2.value.args) == 2 \
+            and not call2.value.keywords
+        h["buf_sink"], h["buf_arg"] = call2.value.args
+        call2.value.args = [_hole(16), _hole(17)]
     except (AssertionError, AttributeError, IndexError, ValueError, TypeError) as e:
         raise Untranslatable("_make_c_or_py_source: unexpected shape (%s)" % type(e).__name__)
-    # the statements that compute `output` and the try block; what precedes (verbose message, file-like targets)
-    # does not touch the target file
-    body = f.body[-4:]
     return "\n".join(py2coq.shape(s) for s in body), h
 
 
 def translate(repo):
+    return "\n".join([
+        "(* GENERATED by tools/props/c23.py from %s (_make_c_or_py_source) — do not edit; regenerated on every run. *)" % SRC,
+        "From Coq Require Import List NArith ZArith Bool.", "Import ListNotations.",
+        "From Cffi Require Import C35.PyStr C35.Model C23.Model C23.AuditModel.", "Open Scope N_scope.", "",
+        "(* every use of a set-valued expression, every dict iteration and every process-dependent call in the four",
+        "   files that produce the emitted text (tools/props/c23_audit.py) *)",
+        c23_audit.gallina(c23_audit.audit(repo)),
+        holes_record(repo, "the_holes"), ""])
+
+
+def holes_record(repo, name):
+    """`Definition <name> : holes := {| ... |}.` extracted from the current _make_c_or_py_source (whole body pinned
+    by SKELETON); also used by tools/props/c24.py for its own copy (C24's closure must not share C23/Gen.v)"""
     tree = py2coq.parse_source(os.path.join(repo, SRC))
     fdef = py2coq.find_function(tree, "_make_c_or_py_source")
+    if [a.arg for a in fdef.args.args] != ["ffi", "module_name", "preamble", "target_file", "verbose"]:
+        raise Untranslatable("_make_c_or_py_source: parameters changed")
     skel, h = skeleton(fdef)
     if skel != SKELETON:
         raise Untranslatable("_make_c_or_py_source: control skeleton differs from the recorded one")
@@ -147,14 +181,22 @@ def translate(repo):
         written = "fun output => output"
     else:
         raise Untranslatable("written expression " + ast.dump(h["written"])[:80])
+
+    def sink(node):
+        if isinstance(node, ast.Name) and node.id == "target_file":
+            return "SinkTarget"
+        if isinstance(node, ast.Name) and node.id == "f":
+            return "SinkBuffer"
+        raise Untranslatable("write_source_to_f receiver " + ast.dump(node)[:80])
+
+    def genarg(node):
+        if isinstance(node, ast.Name) and node.id == "preamble":
+            return "GPreamble"
+        if isinstance(node, ast.Constant) and node.value is None:
+            return "GNone"
+        raise Untranslatable("write_source_to_f argument " + ast.dump(node)[:80])
     return "\n".join([
-        "(* GENERATED by tools/props/c23.py from %s (_make_c_or_py_source) — do not edit; regenerated on every run. *)" % SRC,
-        "From Coq Require Import List NArith ZArith Bool.", "Import ListNotations.",
-        "From Cffi Require Import C35.PyStr C35.Model C23.Model C23.AuditModel.", "Open Scope N_scope.", "",
-        "(* every use of a set-valued expression, every dict iteration and every process-dependent call in the four",
-        "   files that produce the emitted text (tools/props/c23_audit.py) *)",
-        c23_audit.gallina(c23_audit.audit(repo)),
-        "Definition the_holes : holes := {|",
+        "Definition %s : holes := {|" % name,
         "  h_read_path := %s;                                   (* open(%s, 'r') *)" % (path(h["read_path"]), h["read_path"].id),
         "  h_read_extra := (%d)%%Z;                              (* f1.read(len(output) + %d) *)" % (
             h["read_extra"].value, h["read_extra"].value),
@@ -165,8 +207,15 @@ def translate(repo):
         "  h_rename := (%s, %s);" % (path(h["rename"][0]), path(h["rename"][1])),
         "  h_fallback_unlink := %s;" % path(h["fallback_unlink"]),
         "  h_fallback_rename := (%s, %s);" % (path(h["fallback_rename"][0]), path(h["fallback_rename"][1])),
-        "  h_result_written := %s" % boolean(h["result_written"]),
-        "|}.", ""])
+        "  h_result_written := %s;" % boolean(h["result_written"]),
+        "  h_fl_sink := %s;                              (* recompiler.write_source_to_f(%s, %s); return %s *)" % (
+            sink(h["fl_sink"]), ast.unparse(h["fl_sink"]), ast.unparse(h["fl_arg"]), ast.unparse(h["fl_result"])),
+        "  h_fl_arg := %s;" % genarg(h["fl_arg"]),
+        "  h_fl_result := %s;" % boolean(h["fl_result"]),
+        "  h_buf_sink := %s;                             (* f = NativeIO(); recompiler.write_source_to_f(%s, %s) *)" % (
+            sink(h["buf_sink"]), ast.unparse(h["buf_sink"]), ast.unparse(h["buf_arg"])),
+        "  h_buf_arg := %s" % genarg(h["buf_arg"]),
+        "|}."])
 
 
 def regen(ctx):
@@ -182,8 +231,13 @@ def regen(ctx):
     ctx._c23_audit_problems = problems
 
 
-SKELETON = r"""Assign([Name('f', Store())], Call(Name('NativeIO', Load()), [], []))
-Expr(Call(Attribute(Name('recompiler', Load()), 'write_source_to_f', Load()), [Name('f', Load()), Name('preamble', Load())], []))
+SKELETON = r"""If(BoolOp(And(), [Name('verbose', Load()), UnaryOp(Not(), Call(Name('_is_file_like', Load()), [Name('target_file', Load())], []))]), [Expr(Call(Name('print', Load()), [BinOp(Constant('generating %s'), Mod(), Tuple([Name('target_file', Load())], Load()))], []))], [])
+Assign([Name('recompiler', Store())], Call(Name('Recompiler', Load()), [Name('ffi', Load()), Name('module_name', Load())], [keyword('target_is_python', Compare(Name('preamble', Load()), [Is()], [Constant(None)]))]))
+Expr(Call(Attribute(Name('recompiler', Load()), 'collect_type_table', Load()), [], []))
+Expr(Call(Attribute(Name('recompiler', Load()), 'collect_step_tables', Load()), [], []))
+If(Call(Name('_is_file_like', Load()), [Name('target_file', Load())], []), [Expr(Call(Attribute(Name('recompiler', Load()), 'write_source_to_f', Load()), [Name('HOLE_13', Load()), Name('HOLE_14', Load())], [])), Return(Name('HOLE_15', Load()))], [])
+Assign([Name('f', Store())], Call(Name('NativeIO', Load()), [], []))
+Expr(Call(Attribute(Name('recompiler', Load()), 'write_source_to_f', Load()), [Name('HOLE_16', Load()), Name('HOLE_17', Load())], []))
 Assign([Name('output', Store())], Call(Attribute(Name('f', Load()), 'getvalue', Load()), [], []))
 Try([With([withitem(Call(Name('open', Load()), [Name('HOLE_1', Load()), Constant('r')], []), Name('f1', Store()))], [If(Compare(Call(Attribute(Name('f1', Load()), 'read', Load()), [BinOp(Call(Name('len', Load()), [Name('output', Load())], []), Add(), Name('HOLE_2', Load()))], []), [NotEq()], [Name('HOLE_3', Load())]), [Raise(Name('OSError', Load()))], [])]), If(Name('verbose', Load()), [Expr(Call(Name('print', Load()), [Constant('(already up-to-date)')], []))], []), Return(Name('HOLE_4', Load()))], [ExceptHandler(Name('OSError', Load()), body=[Assign([Name('tmp_file', Store())], BinOp(Constant('%s.~%d'), Mod(), Tuple([Name('target_file', Load()), Call(Attribute(Name('os', Load()), 'getpid', Load()), [], [])], Load()))), With([withitem(Call(Name('open', Load()), [Name('HOLE_5', Load()), Constant('w')], []), Name('f1', Store()))], [Expr(Call(Attribute(Name('f1', Load()), 'write', Load()), [Name('HOLE_6', Load())], []))]), Try([Expr(Call(Attribute(Name('os', Load()), 'rename', Load()), [Name('HOLE_7', Load()), Name('HOLE_8', Load())], []))], [ExceptHandler(Name('OSError', Load()), body=[Expr(Call(Attribute(Name('os', Load()), 'unlink', Load()), [Name('HOLE_9', Load())], [])), Expr(Call(Attribute(Name('os', Load()), 'rename', Load()), [Name('HOLE_10', Load()), Name('HOLE_11', Load())], []))])], [], []), Return(Name('HOLE_12', Load()))])], [], [])"""
 
@@ -425,6 +479,15 @@ def evaluate(ctx, cases):
                     o in ("open_w", "write", "rename", "unlink") for o in r["second"]["ops"]):
                 ctx.violation(c, "regenerating right after %s is not a no-op: returned %r, calls %s" % (
                     desc, r["second"]["result"], r["second"]["ops"]), key)
+            fl = r.get("filelike")
+            if fl is not None:
+                if not fl["same_text"]:
+                    ctx.violation(c, "%s: the text handed to a file-like target differs from the text emitted just before "
+                                  "for the same declarations" % desc, key)
+                if fl["ops"] or fl["result"].get("value") is not True or not fl["target_untouched"]:
+                    ctx.mismatch(c, "file-like target: I/O calls %s, result %r, path target untouched: %s; model: no call, "
+                                 "True, untouched" % (fl["ops"], fl["result"], fl["target_untouched"]),
+                                 "C23.Model.make_source (file-like branch) vs real run with a StringIO target")
             if r["leftovers"]:
                 ctx.violation(c, "%s leaves files behind: %s" % (desc, r["leftovers"]), key)
             # crash points: old or new, nothing else
